@@ -268,6 +268,10 @@ class MockState:
 
         Line nodes are placed into child line block containers, based on their indentation.
         """
+        # a blank first line has no indentation of its own
+        # (this cannot happen in rST, where leading blank lines of the content are stripped)
+        if len(block) and getattr(block[0], "indent", None) is None:
+            block[0].indent = 0
         for index in range(1, len(block)):
             if getattr(block[index], "indent", None) is None:
                 block[index].indent = block[index - 1].indent
